@@ -11,6 +11,23 @@ def add(id, category, text, note, technique, ref):
 
 exec(open('/verif/manifest_table.py').read())
 
+# parts added after the seeded-change rounds (DESIGN.md 10.9); appended to the level text
+EXTRA = {
+ "C01": "In addition the valued accrual pipeline scenarios run free under the Go race detector (the explorer treats a processor callback as atomic), and the Delta row of a two-year daily accrual is observed on the free-running binary.",
+ "C02": "In addition: the same cells around the end of a leap year, and a three-file layout of a fixed journal under every loader schedule within the deviation bound (single-file result as the oracle).",
+ "C03": "In addition every life history of <= 4 (quick) / 6 (thorough) steps of two foreign positions (buy, sell out completely, new price, unrelated booking) on consecutive days.",
+ "C04": "In addition an accepted and a rejected journal spread over three files under every loader schedule within the deviation bound.",
+ "C05": "In addition one wide two-level layout (81 files) per journal.",
+ "C06": "Inputs include sibling accounts / commodities whose totals are equal but made of decimals that are inexact in binary, arriving in different orders.",
+ "C12": "In addition `balance -v` on prices in the root file and positions in two included files under every loader schedule within the deviation bound.",
+ "C14": "In addition wide include trees (21/81/141 files, valid or with an error in the last leaf) and an 'extreme' class of numeric flag values (INT32 limits, 1e8) run on the real binary under a 4 GiB address-space limit and a 20 s deadline.",
+ "C15": "In addition a crossed-ties case (mathematically equal scores attached to different words) explored under all 7! iteration orders of the token set.",
+ "C16": "In addition the position life histories of C03.",
+ "C20": "In addition the position life histories of C03 (portfolios that become empty and are funded again), --last and --commodity configurations.",
+}
+for k, v in EXTRA.items():
+    CHECKS[k]["text"] += " " + v
+
 props = [json.loads(l)["id"] for l in open('/verif/properties.jsonl')]
 m = {
  "version": 1,
